@@ -21,10 +21,13 @@ pub struct SetScript {
     /// picks of members to duplicate
     pub dups: Vec<u16>,
     pub perm_seed: u64,
+    /// deep mode: no depth budget (resolutions down to 29), for thin deep chains; the set stays
+    /// small because every op adds at most a handful of cells
+    pub deep: bool,
 }
 
 pub fn script_json(s: &SetScript) -> Value {
-    json!({"root_kind": s.root_kind, "root": gen::cellspec_json(&s.root), "ops": s.ops, "overlaps": s.overlaps, "dups": s.dups, "perm_seed": s.perm_seed})
+    json!({"root_kind": s.root_kind, "root": gen::cellspec_json(&s.root), "ops": s.ops, "overlaps": s.overlaps, "dups": s.dups, "perm_seed": s.perm_seed, "deep": s.deep})
 }
 
 pub fn script_from_json(v: &Value) -> Option<SetScript> {
@@ -42,12 +45,13 @@ pub fn script_from_json(v: &Value) -> Option<SetScript> {
         overlaps,
         dups,
         perm_seed: v["perm_seed"].as_u64()?,
+        deep: v["deep"].as_bool().unwrap_or(false),
     })
 }
 
 pub fn script(max_ops: usize, with_overlaps: bool) -> impl Strategy<Value = SetScript> {
     let ov = if with_overlaps { 6 } else { 0 };
-    (
+    let shallow = (
         prop_oneof![4 => Just(0u8), 2 => Just(1u8), 2 => Just(2u8), 2 => Just(3u8)],
         gen::cell_spec(2, 29),
         proptest::collection::vec((any::<u16>(), 0u8..9), 0..max_ops),
@@ -55,7 +59,22 @@ pub fn script(max_ops: usize, with_overlaps: bool) -> impl Strategy<Value = SetS
         proptest::collection::vec(any::<u16>(), 0..=(if with_overlaps { 4 } else { 0 })),
         any::<u64>(),
     )
-        .prop_map(|(root_kind, root, ops, overlaps, dups, perm_seed)| SetScript { root_kind, root, ops, overlaps, dups, perm_seed })
+        .prop_map(|(root_kind, root, ops, overlaps, dups, perm_seed)| SetScript { root_kind, root, ops, overlaps, dups, perm_seed, deep: false });
+    // thin deep chains: mostly "subdivide the cell produced last" (action 9), a few other ops, no depth budget
+    let deep = (
+        prop_oneof![5 => Just(0u8), 2 => Just(1u8), 2 => Just(2u8), 1 => Just(3u8)],
+        gen::cell_spec(2, 12),
+        prop_oneof![
+            // pure chains (a full-depth chain from the world cell needs 31 of them)
+            7 => proptest::collection::vec((any::<u16>(), Just(9u8)), 20..48),
+            3 => proptest::collection::vec((any::<u16>(), prop_oneof![8 => Just(9u8), 1 => 0u8..6, 1 => Just(8u8), 1 => 6u8..8]), 0..48),
+        ],
+        proptest::collection::vec((any::<u16>(), 0u8..6, any::<u8>()), 0..=(ov / 2)),
+        proptest::collection::vec(any::<u16>(), 0..=(if with_overlaps { 2 } else { 0 })),
+        any::<u64>(),
+    )
+        .prop_map(|(root_kind, root, ops, overlaps, dups, perm_seed)| SetScript { root_kind, root, ops, overlaps, dups, perm_seed, deep: true });
+    prop_oneof![4 => shallow, 1 => deep]
 }
 
 pub struct Built {
@@ -84,19 +103,29 @@ pub fn build(s: &SetScript) -> Built {
         _ => s.root.cell(),
     };
     // depth budget: the whole subtree at the finest allowed level has at most 4^8 cells
-    let max_res = crate::props::c07::max_target(&root);
+    let max_res = if s.deep { 29 } else { crate::props::c07::max_target(&root) };
     let mut set: Vec<Cell> = vec![root];
     let mut deleted = 0;
+    let mut last: Option<Cell> = None;
     for &(pick, action) in &s.ops {
         if set.is_empty() {
             break;
         }
-        let i = pick_index(pick, set.len());
+        let mut i = pick_index(pick, set.len());
+        let mut action = action;
+        if action == 9 {
+            // chain: subdivide the first child produced by the previous subdivision
+            if let Some(j) = last.and_then(|l| set.iter().position(|x| *x == l)) {
+                i = j;
+            }
+            action = 0;
+        }
         match action {
             0..=5 => {
                 let c = set[i];
-                if c.res < max_res {
+                if c.res < max_res && set.len() < 600 {
                     let kids = tree::children(&c);
+                    last = Some(kids[(pick as usize) % kids.len()]);
                     set.splice(i..=i, kids);
                 }
             }
